@@ -122,17 +122,13 @@ Definition create_node (s : nstate) (labels : list N) (ps : props) (cols : bool)
       next_node := nx; free_nodes := fr;
       lidx := fold_left (fun acc l => pset_add (l, id) acc) ls (lidx s) |}, id).
 
-Definition with_node (s : nstate) (id : N) (nd : node) : nstate :=
-  {| nodes := upd (nodes s) id (Some nd); ncols := ncols s; next_node := next_node s;
-     free_nodes := free_nodes s; lidx := lidx s |}.
-
 (* set_node_property (repaired: the node is looked up before the column write) *)
 Definition set_nprop (s : nstate) (id k v : N) : nstate * res :=
   match nodes s id with
   | None => (s, RErr E_NODE_NOT_FOUND)
   | Some nd =>
-      let s1 := with_node s id {| n_labels := n_labels nd; n_props := pset k v (n_props nd) |} in
-      ({| nodes := nodes s1; ncols := upd (ncols s) id (pset k v (ncols s id));
+      ({| nodes := upd (nodes s) id (Some {| n_labels := n_labels nd; n_props := pset k v (n_props nd) |});
+          ncols := upd (ncols s) id (pset k v (ncols s id));
           next_node := next_node s; free_nodes := free_nodes s; lidx := lidx s |}, ROk 0)
   end.
 
@@ -255,7 +251,11 @@ Definition rem_eprop (s : estate) (e k : N) : estate :=
 (* compact_adjacency *)
 Definition compact (s : estate) : estate :=
   match bout s, bin s with
-  | [], [] => s
+  | [], [] =>                         (* nothing to compact; empty slices are sorted *)
+      {| endp := endp s; etype := etype s; eprops := eprops s; ecols := ecols s;
+         next_edge := next_edge s; free_edges := free_edges s; tidx := tidx s;
+         interned := interned s; bout := []; bin := []; fout := fout s; fin := fin s;
+         fdead := fdead s; unsorted := false; tstale := tstale s |}
   | _, _ =>
       {| endp := endp s; etype := etype s; eprops := eprops s; ecols := ecols s;
          next_edge := next_edge s; free_edges := free_edges s; tidx := tidx s;
@@ -585,15 +585,20 @@ Definition res_row (r : res) : list N :=
 
 Definition rows_eqb (a b : list (list N)) : bool := list_eqb (list_eqb N.eqb) a b.
 
-(* one case: the operations, and after each the implementation's result and dump *)
-Definition case := list (op * (N * N) * list (list N))%type.
+(* one case: the operations, after each the implementation's result and (where observed)
+   its dump *)
+Definition case := list (op * list N * option (N * N * list (list N)))%type.
 
 Fixpoint check_from (s : state) (c : case) : bool :=
   match c with
   | [] => true
-  | (o, (maxn, maxe), rows) :: rest =>
+  | (o, rr, d) :: rest =>
       let '(s', r) := step s o in
-      rows_eqb (res_row r :: dump s' maxn maxe) rows && check_from s' rest
+      list_eqb N.eqb (res_row r) rr &&
+      match d with
+      | Some (maxn, maxe, rows) => rows_eqb (dump s' maxn maxe) rows
+      | None => true
+      end && check_from s' rest
   end.
 
 Definition check_case (c : case) : bool := check_from init c.
